@@ -148,19 +148,19 @@ static void check_structure(void)
 	printf("structure: -pm1- distance widths follow the reach rule; thresholds 320 / 832 1088 1600 / 2880 3136 3648 4672 6720\n");
 	/* start-header trees: explicit leaf table == S-expression, each shape code complete */
 	for (k = 0; k < 32; ++k) {
-		const Pm1RefTree *t = &pm1_ref_tree[k];
 		uint8_t buf[8];
-		unsigned w;
-		for (i = 0; i < t->nleaves; ++i) {
+		unsigned w, nl = pm1_ref_tree_nleaves[k];
+		const unsigned char *lc = &pm1_ref_leaf_code[6 * k], *ll = &pm1_ref_leaf_len[6 * k], *lk = &pm1_ref_leaf_cls[6 * k];
+		for (i = 0; i < nl; ++i) {
 			unsigned used = 99;
-			int leaf = sexpr_walk(t->shape, t->leaf[i].code, t->leaf[i].len, &used);
-			EXPECT(leaf == t->leaf[i].cls && used == t->leaf[i].len, "tree %u leaf %u: table says class %u len %u, shape gives %d len %u", k, i, t->leaf[i].cls, t->leaf[i].len, leaf, used);
+			int leaf = sexpr_walk(pm1_ref_tree_shape[k], lc[i], ll[i], &used);
+			EXPECT(leaf == lk[i] && used == ll[i], "tree %u leaf %u: table says class %u len %u, shape gives %d len %u", k, i, lk[i], ll[i], leaf, used);
 		}
 		for (w = 0; w < 32; ++w) {       /* exactly one leaf row matches any 5-bit string */
 			unsigned m = 0;
 			set_bits_from_word(buf, w, 5);
 			g_bits = buf; g_nbytes = 8;
-			for (i = 0; i < t->nleaves; ++i) if (PMA_BITS(0, t->leaf[i].len) == t->leaf[i].code) ++m;
+			for (i = 0; i < nl; ++i) if (PMA_BITS(0, ll[i]) == lc[i]) ++m;
 			EXPECT(m == 1, "tree %u: %u leaves match %x", k, m, w);
 		}
 	}
@@ -296,8 +296,8 @@ static int ref_pm1(size_t want)
 			  if (PMA_BITS(cc, row->plen) == row->prefix && PMA_BITS(cc + row->plen, row->xbits) < row->count) ++cov_pm1_block[r]; } }
 			for (i = 0; i < n; ++i) {
 				unsigned c0 = cur, rank = pm1_ref_rank(header, &cur), l;
-				for (l = 0; l < pm1_ref_tree[header].nleaves; ++l)
-					if (PMA_BITS(c0, pm1_ref_tree[header].leaf[l].len) == pm1_ref_tree[header].leaf[l].code) ++cov_pm1_leaf[header][l];
+				for (l = 0; l < pm1_ref_tree_nleaves[header]; ++l)
+					if (PMA_BITS(c0, pm1_ref_leaf_len[6 * header + l]) == pm1_ref_leaf_code[6 * header + l]) ++cov_pm1_leaf[header][l];
 				emit(mtf[rank]);
 			}
 			then_copy = n != 216;                 /* a maximal block is not necessarily followed by a copy */
@@ -444,7 +444,7 @@ int main(int argc, char **argv)
 	printf("coverage: -pm2- flag at 4K: clear %lu set %lu; at 8K+4Kk: clear %lu set %lu; single-code code tables %lu, single-class offset tables %lu, offset table absent %lu\n",
 	       cov_pm2_flag[0][0], cov_pm2_flag[0][1], cov_pm2_flag[1][0], cov_pm2_flag[1][1], cov_pm2_single_code, cov_pm2_single_off, cov_pm2_nooff);
 	pr("-pm1- start header 0..31", cov_pm1_tree, 32);
-	{ unsigned used = 0, tot = 0; for (k = 0; k < 32; ++k) for (i = 0; i < pm1_ref_tree[k].nleaves; ++i) { ++tot; used += cov_pm1_leaf[k][i] != 0; }
+	{ unsigned used = 0, tot = 0; for (k = 0; k < 32; ++k) for (i = 0; i < pm1_ref_tree_nleaves[k]; ++i) { ++tot; used += cov_pm1_leaf[k][i] != 0; }
 	  printf("coverage: -pm1- start-header code leaves used: %u of %u\n", used, tot); }
 	pr("-pm1- block length rows", cov_pm1_block, 5);
 	pr("-pm1- copy length rows", cov_pm1_copylen, 7);
